@@ -3,7 +3,7 @@
 of /repo, rebuilds a scratch copy of the harness against it, and records which
 checks report a violation.  /repo and /verif are never modified.
 
-usage: tools/sensitivity.py [--all-props] [--tests] [--keep] [name-substring ...]
+usage: tools/sensitivity.py [--all-props] [--tests] [--keep] [--seeded | --benign-dir] [name-substring ...]
 Results: tools/sensitivity_results.json (merged across runs).
 """
 import json, os, re, shutil, subprocess, sys, time
@@ -250,6 +250,13 @@ def main():
         for d in sorted(glob.glob(f"{VERIF}/seeded/*/")):
             meta = json.load(open(d + "meta.json"))
             M.append(dict(name="seeded:" + os.path.basename(d.rstrip("/")), props=meta.get("caught_by_quick_checks", [meta["property"]]), edits=[], patch=d + "patch.diff", note=meta.get("summary", "")))
+    if "--benign-dir" in sys.argv:
+        # property-preserving changes written by independent sub-agents (/verif/benign/*): all 18 checks must stay silent
+        import glob
+        M.clear()
+        for d in sorted(glob.glob(f"{VERIF}/benign/*/")):
+            meta = json.load(open(d + "meta.json"))
+            M.append(dict(name="benign-agent:" + os.path.basename(d.rstrip("/")), props=[], run=ALL, edits=[], patch=d + "patch.diff", note=meta.get("summary", ""), benign=True))
     todo = [m for m in M if not args or any(a in m["name"] for a in args)]
     for m in todo:
         sh("git checkout -- .", cwd=REPO)
